@@ -250,6 +250,34 @@ def cached_linear_flows(ctx, report=None):
                        case, {'symptom': 'integral!=1', 'classes': [name]})
 
 
+def conditional_base_closed_form(ctx, report):
+    """a flow over ConditionalDiagonalNormal with context rows that encode SMALL standard deviations (log-std down to -11): the
+    density is the closed form N(x; m, sigma) (through an affine transform: plus its constant log-det), which integrates to one"""
+    from nflows.flows.base import Flow
+    from nflows.distributions.normal import ConditionalDiagonalNormal
+    import nflows.transforms as T
+    gen = torch.Generator().manual_seed(ctx.seed + 3333)
+    for D in (1, 2):
+        for ls in (1.0, -2.0, -4.0, -8.0, -11.0):
+            flow = Flow(T.PointwiseAffineTransform(shift=0.25, scale=2.0), ConditionalDiagonalNormal([D])).double(); flow.eval()
+            m = torch.randn(3, D, generator=gen, dtype=torch.float64)
+            lsd = ls + 0.5 * torch.randn(3, D, generator=gen, dtype=torch.float64)
+            z = torch.randn(3, D, generator=gen, dtype=torch.float64)
+            y = m + torch.exp(lsd) * z                      # a point of the base space
+            x = (y - 0.25) / 2.0                            # its preimage under the affine transform
+            c = torch.cat([m, lsd], 1)
+            with torch.no_grad():
+                lp = flow.log_prob(x, context=c)
+            want = (-0.5 * z ** 2 - lsd - 0.5 * math.log(2 * math.pi)).sum(1) + D * math.log(2.0)
+            if not torch.allclose(lp, want, rtol=1e-8, atol=1e-8):
+                k = int((lp - want).abs().argmax())
+                report('flow over ConditionalDiagonalNormal, log-std about %g: log_prob = %.9g, normalised density = %.9g (exp(log_prob) integrates to about %.6f)'
+                       % (ls, lp[k].item(), want[k].item(), float(torch.exp(lp - want).mean())),
+                       {'program': ['PointwiseAffine'], 'base': 'cond', 'D': D, 'x': x.reshape(-1).tolist(), 'context': c.reshape(-1).tolist()},
+                       {'symptom': 'integral!=1', 'classes': ['ConditionalDiagonalNormal']})
+                return
+
+
 # ---------------------------------------------------------------- search: quadrature
 def _quad_1d(flow, c_row):
     """integral of exp(log_prob) over the whole line: x = tan(pi u / 2), composite trapezoid in u, refined until stable"""
@@ -274,6 +302,7 @@ def search(ctx):
     import random
     gated_flows(ctx, report=lambda what, case, match: ctx.fail(what, case, match=match))
     cached_linear_flows(ctx, report=lambda what, case, match: ctx.fail(what, case, match=match))
+    conditional_base_closed_form(ctx, report=lambda what, case, match: ctx.fail(what, case, match=match))
     gen = torch.Generator().manual_seed(ctx.seed + 303)
     rng = random.Random(ctx.seed + 303)
     for e in stage_pool(1, None):
